@@ -712,6 +712,7 @@ def replace(eq: str, term: str, replacement: str, rhs_only: tp.Optional[bool] = 
 
     eq_new = ""
     idx = eq.find(term)
+    prev_char = ""  # character that precedes the not yet processed remainder `eq` in the original equation
 
     # go through all appearances of term in eq
     while idx != -1:
@@ -719,11 +720,13 @@ def replace(eq: str, term: str, replacement: str, rhs_only: tp.Optional[bool] = 
         # get idx of sign that follows after term
         idx_follow_op = idx+len(term)
 
-        # if it is an allowed sign, replace term, else not
+        # replace term only if it is delimited on both sides (start/end of the equation or an allowed sign); the
+        # character before a match at the start of the remainder is the one consumed in the previous iteration
         replaced = False
-        if ((idx_follow_op < len(eq) and eq[idx_follow_op] in allowed_follow_ops) and
-           (idx == 0 or eq[idx-1] in allowed_follow_ops)) or \
-                (idx_follow_op == len(eq) and eq[idx-1] in allowed_follow_ops):
+        char_before = eq[idx-1] if idx > 0 else prev_char
+        char_after = eq[idx_follow_op] if idx_follow_op < len(eq) else ""
+        if (char_before == "" or char_before in allowed_follow_ops) and \
+                (char_after == "" or char_after in allowed_follow_ops):
             eq_part = eq[:idx]
             if (rhs_only and "=" in eq_part) or (lhs_only and "=" not in eq_part) or (not rhs_only and not lhs_only):
                 eq_new += f"{eq_part}{replacement}"
@@ -732,6 +735,7 @@ def replace(eq: str, term: str, replacement: str, rhs_only: tp.Optional[bool] = 
             eq_new += f"{eq[:idx_follow_op]}"
 
         # jump to next appearance of term in eq
+        prev_char = eq[idx_follow_op-1]
         eq = eq[idx_follow_op:]
         idx = eq.find(term)
 
